@@ -154,6 +154,11 @@ fn gen_hs(run: &mut Run, prop: &str, seed: u64, thorough: bool) {
                     }
                 } else {
                     v.push((false, None));
+                    if prop == "C17" {
+                        // the plain pattern always: only there is a static key sent in the clear (IN, IX, ...)
+                        v.push((false, Some(vec![])));
+                        v.push((true, Some(vec![])));
+                    }
                 }
                 v
             } {
